@@ -1165,7 +1165,7 @@ fn parse_mapping(mapping: &Mapping) -> crate::Result<Expression> {
                             } else {
                                 boolean = true;
                                 rest.push(Expression::BooleanExpression(
-                                    Box::new(e.clone()),
+                                    Box::new(unmatched_e.clone()),
                                     BoolSym::Equal,
                                     Box::new(Expression::Boolean(*b)),
                                 ))
@@ -1191,7 +1191,7 @@ fn parse_mapping(mapping: &Mapping) -> crate::Result<Expression> {
                                 } else {
                                     number = true;
                                     rest.push(Expression::BooleanExpression(
-                                        Box::new(e.clone()),
+                                        Box::new(unmatched_e.clone()),
                                         BoolSym::Equal,
                                         Box::new(Expression::Integer(i)),
                                     ));
@@ -1212,7 +1212,7 @@ fn parse_mapping(mapping: &Mapping) -> crate::Result<Expression> {
                                 } else {
                                     number = true;
                                     rest.push(Expression::BooleanExpression(
-                                        Box::new(e.clone()),
+                                        Box::new(unmatched_e.clone()),
                                         BoolSym::Equal,
                                         Box::new(Expression::Float(i)),
                                     ))
@@ -1314,7 +1314,7 @@ fn parse_mapping(mapping: &Mapping) -> crate::Result<Expression> {
                         Pattern::Equal(i) => {
                             number = true;
                             rest.push(Expression::BooleanExpression(
-                                Box::new(e.clone()),
+                                Box::new(unmatched_e.clone()),
                                 BoolSym::Equal,
                                 Box::new(Expression::Integer(i)),
                             ))
@@ -1322,7 +1322,7 @@ fn parse_mapping(mapping: &Mapping) -> crate::Result<Expression> {
                         Pattern::GreaterThan(i) => {
                             number = true;
                             rest.push(Expression::BooleanExpression(
-                                Box::new(e.clone()),
+                                Box::new(unmatched_e.clone()),
                                 BoolSym::GreaterThan,
                                 Box::new(Expression::Integer(i)),
                             ))
@@ -1330,7 +1330,7 @@ fn parse_mapping(mapping: &Mapping) -> crate::Result<Expression> {
                         Pattern::GreaterThanOrEqual(i) => {
                             number = true;
                             rest.push(Expression::BooleanExpression(
-                                Box::new(e.clone()),
+                                Box::new(unmatched_e.clone()),
                                 BoolSym::GreaterThanOrEqual,
                                 Box::new(Expression::Integer(i)),
                             ))
@@ -1338,7 +1338,7 @@ fn parse_mapping(mapping: &Mapping) -> crate::Result<Expression> {
                         Pattern::LessThan(i) => {
                             number = true;
                             rest.push(Expression::BooleanExpression(
-                                Box::new(e.clone()),
+                                Box::new(unmatched_e.clone()),
                                 BoolSym::LessThan,
                                 Box::new(Expression::Integer(i)),
                             ))
@@ -1346,7 +1346,7 @@ fn parse_mapping(mapping: &Mapping) -> crate::Result<Expression> {
                         Pattern::LessThanOrEqual(i) => {
                             number = true;
                             rest.push(Expression::BooleanExpression(
-                                Box::new(e.clone()),
+                                Box::new(unmatched_e.clone()),
                                 BoolSym::LessThanOrEqual,
                                 Box::new(Expression::Integer(i)),
                             ))
@@ -1354,7 +1354,7 @@ fn parse_mapping(mapping: &Mapping) -> crate::Result<Expression> {
                         Pattern::FEqual(i) => {
                             number = true;
                             rest.push(Expression::BooleanExpression(
-                                Box::new(e.clone()),
+                                Box::new(unmatched_e.clone()),
                                 BoolSym::Equal,
                                 Box::new(Expression::Float(i)),
                             ))
@@ -1362,7 +1362,7 @@ fn parse_mapping(mapping: &Mapping) -> crate::Result<Expression> {
                         Pattern::FGreaterThan(i) => {
                             number = true;
                             rest.push(Expression::BooleanExpression(
-                                Box::new(e.clone()),
+                                Box::new(unmatched_e.clone()),
                                 BoolSym::GreaterThan,
                                 Box::new(Expression::Float(i)),
                             ))
@@ -1370,7 +1370,7 @@ fn parse_mapping(mapping: &Mapping) -> crate::Result<Expression> {
                         Pattern::FGreaterThanOrEqual(i) => {
                             number = true;
                             rest.push(Expression::BooleanExpression(
-                                Box::new(e.clone()),
+                                Box::new(unmatched_e.clone()),
                                 BoolSym::GreaterThanOrEqual,
                                 Box::new(Expression::Float(i)),
                             ))
@@ -1378,7 +1378,7 @@ fn parse_mapping(mapping: &Mapping) -> crate::Result<Expression> {
                         Pattern::FLessThan(i) => {
                             number = true;
                             rest.push(Expression::BooleanExpression(
-                                Box::new(e.clone()),
+                                Box::new(unmatched_e.clone()),
                                 BoolSym::LessThan,
                                 Box::new(Expression::Float(i)),
                             ))
@@ -1386,7 +1386,7 @@ fn parse_mapping(mapping: &Mapping) -> crate::Result<Expression> {
                         Pattern::FLessThanOrEqual(i) => {
                             number = true;
                             rest.push(Expression::BooleanExpression(
-                                Box::new(e.clone()),
+                                Box::new(unmatched_e.clone()),
                                 BoolSym::LessThanOrEqual,
                                 Box::new(Expression::Float(i)),
                             ))
